@@ -175,10 +175,16 @@ func (w *world) checkCrashImage(seq *Seq, k, opIdx int, img db.KeyValueStore) {
 	}
 	mflags := strings.Fields(mp[1])
 	consistent := ev[0] == "1" && len(notes) == 0
-	// observations on a fresh process
-	fresh := chain.NewNode(img, seq.NewState, w.opts()...)
-	evOK, evWhat := eventsOK(fresh, img, w.lo)
+	// observations on a fresh process (the next-store probe works on its own copies of the pristine image;
+	// the fresh process runs behind a counting proxy: its initialisation may write)
 	nsErr := w.nextStore(img)
+	probe := faultdb.New(img)
+	fresh := chain.NewNode(probe, seq.NewState, w.opts()...)
+	evOK, evWhat := eventsOK(fresh, img, w.lo)
+	initWrote := probe.Count() > 0
+	if initWrote {
+		c.Hist["fresh-process-init-wrote-a-window(unmodelled)"]++
+	}
 	c.Count(fmt.Sprintf("crash/%s/%v/%v/%s", kind, seq.NewState, seq.Boundary, seq.Engine), opIdx >= 0)
 	c.Hist["crash-image-during:"+kind]++
 	what := fmt.Sprintf("crash after %d committed writes, during %s [%s, newState=%v]: ", k, during, seq.Engine, seq.NewState)
@@ -215,7 +221,7 @@ func (w *world) checkCrashImage(seq *Seq, k, opIdx int, img db.KeyValueStore) {
 	if (mflags[1] == "1") != (nsErr == nil) {
 		c.Violation("model-mismatch:recover-ready", what+fmt.Sprintf("model recover_ready=%s, next store error=%v", mflags[1], nsErr), cs, true)
 	}
-	if (mflags[2] == "1") != evOK {
+	if (mflags[2] == "1") != evOK && !(initWrote && !evOK) {
 		c.Violation("model-mismatch:index-covers", what+fmt.Sprintf("model index_covers=%s, events ok=%v %s", mflags[2], evOK, evWhat), cs, true)
 	}
 }
